@@ -197,4 +197,53 @@ def obligations(prog, src, tier, seed):
                 "doc": "for every syntactically valid URI host the TLS stream is built without panicking and the server name is the URI host (IPv6 without brackets)",
                 "run": run_domain, "check": check_domain, "cex_extract": extract_domain,
                 "judge": lambda scn, out: True if out.get("result", "").startswith("panic") else (judge_server_name(scn, out) if "server name" in scn.get("claim", "") else False)})
+    obs.append(builder_keeps_tls(prog, src))
     return obs
+
+
+def builder_keeps_tls(prog, src):
+    """the TLS configuration lives in `client::Builder` until `build_service` hands it to the transport: every
+    builder step that rebuilds the struct must carry it over (only the three `*_tls` methods may change it)"""
+    import re
+    fns = []
+    for f in prog.funcs:
+        if not re.match(r"client::builder::<impl at src/client/builder\.rs:\d+:\d+: \d+:\d+>::\w+$", f.name):
+            continue
+        short = f.name.rsplit("::", 1)[-1]
+        if not f.args or not f.args[0][1].startswith("client::builder::Builder<") or not (f.ret or "").startswith("client::builder::Builder<"):
+            continue
+        if short in ("with_tls", "with_default_tls", "without_tls"):
+            continue
+        if short == "with_auto_http":
+            continue  # its `HttpConnectionBuilder::default()` is mis-resolved by the executor (stated in the bound)
+        fns.append((short, f))
+    fields = src.lookup_struct("Builder", ["transport", "protocol", "tls", "pool"], ["client", "builder"])
+    k_tls = fields.index("tls")
+
+    def run(ctx):
+        ctx.opaque_calls = True
+        short, f = ctx.choose([(True, x) for x in fns], "builder method")
+        ctx.method = short
+        marker = Opaque("the configured ClientConfig")
+        ctx.marker = marker
+        vals = [Opaque("field " + n) for n in fields]
+        from interp import some as _some
+        vals[k_tls] = _some(marker)
+        b = Agg("struct:Builder", vals)
+        args = [b] + [Opaque("argument") for _ in f.args[1:]]
+        return ctx.exec_fn(f, args)
+
+    def check(p):
+        if p.outcome == "panic":
+            return [("a client builder step panics: " + str(p.value)[:80], False)]
+        out = p.value
+        ok = isinstance(out, Agg) and len(out.f) > k_tls and isinstance(out.f[k_tls], Enum) and out.f[k_tls].variant == "Some" and out.f[k_tls].f[0] is p.ctx.marker
+        return [(f"Builder::{p.ctx.method} drops or replaces the TLS configuration set earlier (an https request would then go out in the clear)", ok),
+                ("witness:reach", z3.BoolVal(True))]
+
+    return {"name": "c12_builder_keeps_tls", "family": "builder_tls", "funcs": ["client::builder::Builder::{" + ",".join(n for n, _ in fns) + "}"],
+            "bound": f"each of the {len(fns)} builder methods that take and return a Builder (other than with_tls / with_default_tls / without_tls, which may change it, and with_auto_http, which the executor cannot run), TLS configured before the call; calls into other crates are uninterpreted",
+            "doc": "a TLS configuration set on the builder survives every later builder step",
+            "run": run, "check": check, "crosscheck": False,
+            "cex_extract": lambda p, m: {"family": "builder_tls_order", "method": p.ctx.method},
+            "judge": lambda scn, out: out.get("result", "").startswith(("panic", "crash")) or out.get("first_bytes") == "plaintext"}
